@@ -977,6 +977,10 @@ def section_draws(ctx, r, corr):
                 ctx.fail('property', 'SimulatedAnnealingSampler.sample', 'num_reads', f'{len(ss)} rows for num_reads={kw["num_reads"]}', repro=PRE + src + f'assert len({call}) == {kw["num_reads"]}\n')
             validate(ctx, ss, prob, 'SimulatedAnnealingSampler.sample', f'{prob.vartype} explicit draws ({mode} beta_range)', src, call)
         hk = list(h)
+        if ss is not None and len(reads_log) == len(ss) and list(ss.variables) == hk:
+            for (inits, _acc), row in zip(reads_log, ss.record.sample):
+                final = [int(x) if prob.spin else 2 * int(x) - 1 for x in row]
+                ctx.tick('draws:SA read ' + ('with a flipped spin' if final != [(-1, 1)[i] for i in inits] else 'ending in its initial guess'))
         reads_txt = []
         attributable = True
         for inits, acc in reads_log:
